@@ -1942,7 +1942,7 @@ func runC16(c *Ctx) {
 	x.floats(nflt)
 	nstr := 1500
 	if c.Thorough {
-		nstr = 40000
+		nstr = 15000
 	}
 	x.strs(nstr)
 	for i := 0; i < nsig; i++ {
